@@ -145,7 +145,72 @@ def run(ctx):
     comma_discipline(ctx, fns)
     short_forms(ctx)
     docs_once(ctx, fns)
+    no_reach_through(ctx, fns)
+    no_text_guards(ctx, fns)
     doc_line_normal_form(ctx, fns)
+
+
+def no_reach_through(ctx, fns):
+    """R13.9: a node that has its own printer method is printed *by that method*.  When a printer method descends into a
+    child it passes the child as a whole; reading a field of the child (`e.inner.primary` instead of `e.inner`) and printing
+    only that part drops everything else the child's method prints (here: the postfix accesses of a parenthesised
+    expression)."""
+    db, prov = ctx.db, ctx.prov
+    # AST types that have a dedicated printer method: the (single) AST reference parameter of each printer fn
+    own = {}
+    for f in fns:
+        if "{closure" in f.id:
+            continue
+        for i in range(2, f.arg_count + 1):
+            m = re.match(r"&(?:'\w+ )?(wac_parser::)?(ast::[\w:#]+)", f.local_ty(i))
+            if m:
+                own.setdefault("wac_parser::" + m.group(2).replace("r#", ""), set()).add(f.id.rsplit("::", 1)[-1])
+    n = 0
+    for f in fns:
+        if "{closure" in f.id:
+            continue
+        me = set()
+        for i in range(2, f.arg_count + 1):
+            m = re.match(r"&(?:'\w+ )?(wac_parser::)?(ast::[\w:#]+)", f.local_ty(i))
+            if m:
+                me.add("wac_parser::" + m.group(2).replace("r#", ""))
+        for t in f.calls():
+            if not (t.path or "").startswith(PR) or t.path == PR + "source" or len(t.args) < 2:
+                continue
+            for a in t.args[1:]:
+                if a.place is None:
+                    continue
+                sl = narrow(prov, f, a)
+                owners = [(o.replace("r#", ""), nm) for nm, o, v in sl.fields if o.startswith(AST)]
+                through = sorted({(o, nm) for o, nm in owners if o in own and o not in me})
+                n += 1
+                if through:
+                    o, nm = through[0]
+                    ctx.ob("R13.9", "whole-child|%s|%s.%s" % (f.id.rsplit("::", 1)[-1], o.split("::")[-1], nm), False,
+                           "`%s` prints only the field `%s` of a %s it reaches through a child, bypassing `%s` (the printer of %s): whatever else that method prints is dropped"
+                           % (f.id.rsplit("::", 1)[-1], nm, o.split("::")[-1], "/".join(sorted(own[o])), o.split("::")[-1]), site="%s in %s" % (t.span, f.id))
+    ctx.ob("R13.9", "whole-child", n >= 40, "printer-to-printer calls checked for reach-through: %d" % n)
+
+
+def no_text_guards(ctx, fns):
+    """R13.10: whether a clause is printed depends on whether the tree has it (an `Option` being `Some`, a list being
+    non-empty), never on comparing two pieces of source text: `import x as x: …` has an `as` clause although both texts are
+    equal, and dropping it changes the re-parsed tree."""
+    db, prov = ctx.db, ctx.prov
+    n = 0
+    for f in fns:
+        for t in f.calls():
+            if not (t.declared or "").endswith(("PartialEq::eq", "PartialEq::ne")):
+                continue
+            if not any("str" in g or "String" in g for g in t.gen_args[:2]):
+                continue
+            n += 1
+            both = all(any((c.path or "") == PR + "source" for _, c in prov.slice(f, a).calls) for a in t.args[:2])
+            ctx.ob("R13.10", "text-guard|%s" % f.id.rsplit("::", 1)[-1], not both,
+                   "comparison does not involve two source texts" if not both else
+                   "`%s` decides what to print by comparing two source texts: a clause the tree has is omitted when the texts happen to be equal (the re-parsed tree differs)" % f.id.rsplit("::", 1)[-1],
+                   site="%s in %s" % (t.span, f.id))
+    ctx.ob("R13.10", "text-guard-scan", True, "string comparisons in the printer: %d" % n, nontrivial=False)
 
 
 def docs_once(ctx, fns):
